@@ -397,7 +397,9 @@ class Runner:
                 'extraction_dropped': ['type annotations', 'cast() wrappers', 'docstrings/comments', 'decorators kept as calling convention'],
                 'exhaustive': bool(getattr(chk, 'exhaustive', False)),
             },
-            'assumptions': chk.assumptions + sorted(ip.assumed),
+            'assumptions': chk.assumptions + sorted(ip.assumed) + [
+                'assumed contract (stub, not verified in this check): %s%s' % (c.qual, (' -- ' + c.note) if getattr(c, 'note', None) else '')
+                for c in getattr(chk, 'stubs', []) if c.qual in ip.used_contracts and c.qual not in files],
         }
         os.makedirs(os.path.join(VERIF, 'evidence'), exist_ok=True)
         with open(os.path.join(VERIF, 'evidence', '%s.json' % self.pid), 'w') as f:
